@@ -147,8 +147,11 @@ class C18(Check):
             ks += [("with_al", 2), ("with_target", 1.5), ("reset_al", 1)]
         k = src.weighted(ks)
         op = {"k": k}
-        if k in ("write", "t_write", "with_al", "with_target"):
-            op["v"] = src.choice([1, 2, 3, 5])
+        if k in ("write", "with_al"):
+            # None / falsy local overrides must shadow the target too (targets themselves stay ints)
+            op["v"] = src.choice([1, 2, 3, 5, 0] + ([] if cfg["passthrough"] else [None, None]))
+        elif k in ("t_write", "with_target"):
+            op["v"] = src.choice([1, 2, 3, 5, 0])
         op["fault"] = cfg["transform"] and src.chance(0.1)
         return op
 
